@@ -90,7 +90,7 @@ CLAIMED = {
         "functions and arbitrary flags, instantiation independent of the content of the history. Shift form with constraints (Props/C16Shift.lean, C16s_*, 26 theorems): behind ANY history a whole use, and every engine function, is the fresh run renamed and "
         "computed with the model's four store-size fuels offset by the history's sizes (C16s_history_shift) - the history is never read or written, only its size leaks, through fuels; the plain statement holds "
         "exactly when the fresh run is insensitive to those offsets (C16s_history_independent_iff; usable direction C16s_history_independent_partial) and is false of the model on terms nested deeper than 4*vars+64 "
-        "(kernel-checked C16s_history_independent_fails*; an artefact of the model's fuels - Python recurses without fuel - as is C16_history_independent_unify_fails). Python-level aliasing is decided by "
+        "(kernel-checked C16s_history_independent_fails*; an artefact of the model's fuels - Python recurses without fuel - as is C16_history_independent_unify_fails). Fuel safety (Props/C16Depth.lean, C16d_*, 23): helpers and engine are offset-independent whenever the decidable check useSafe of the fresh run holds (resolved depth of every term walked at most 63, chains end, closure stabilised), hence C16d_history_independent_partial - the fresh outcome shifted behind every history with no further hypothesis; a bound on input depth alone does not suffice (kernel-checked counterexample at schema depth 9 with 26 chained variables; replayed: the code resolves where the model gives up - the model is claimed faithful for resolved depth < 64 only); tfv-inv evaluates useSafe on every compared run with concrete arguments. Python-level aliasing is decided by "
         "histories of parse/validate/graph/query calls on one Language followed by a probe compared with a fresh language and the model, a polymorphic-data-constant family, plain wildcard signatures, and "
         "the verdict of Language.validate() after histories that close the language.",
         technique="Lean 4 proof (frame and equivariance lemmas by induction over the mutual unifier) + model/implementation correspondence over histories",
